@@ -269,6 +269,38 @@ func c04(tier string, args []string) int {
 		}
 		_ = m.VerifCloseDB()
 	}
+	// the same machine instance after the password expired / was replaced by a wrong one: the
+	// shares must not stay usable (a signing operation must fail, keyrings must not load)
+	{
+		live, err := world.CloneAir(a0, rec.Round)
+		if err != nil {
+			r.Infra("clone machine: %v", err)
+		}
+		ops := machineOps(r, rec, 0)
+		sign := ops[len(ops)-1]
+		if !sign.IsSigningState() {
+			r.Infra("no signing operation recorded for machine 0")
+		}
+		if res, err := live.Process(&sign); err != nil || res.Event != "event_signing_partial_sign_received" {
+			r.Infra("the cloned machine cannot sign with the right password: %v", err)
+		}
+		for _, wp := range []string{"", pw + "x", strings.ToUpper(pw)} {
+			live.M.DropSensitiveData()
+			live.M.SetEncryptionKey([]byte(wp))
+			evals++
+			distinct++
+			if krs, err := live.M.GetBLSKeyrings(); err == nil && len(krs) > 0 {
+				r.Violation("C04/keyring-loads-with-wrong-password", fmt.Sprintf("after the password expired and the wrong password %q was entered the BLS keyrings still load on the running machine", wp), map[string]string{"password": wp, "instance": "running"})
+			}
+			s2 := sign
+			res, err := live.Process(&s2)
+			if err == nil && res.Event == "event_signing_partial_sign_received" {
+				r.Violation("C04/share-usable-with-wrong-password", fmt.Sprintf("after the password expired and the wrong password %q was entered the running machine still signs with its share", wp), map[string]string{"password": wp, "instance": "running"})
+			}
+		}
+		live.Close()
+		os.RemoveAll(live.Dir)
+	}
 	db, err := leveldb.OpenFile(dbCopy+"/db", nil)
 	if err != nil {
 		r.Infra("open raw db: %v", err)
